@@ -719,6 +719,630 @@ theorem c14_client_without_lock_swaps :
         = [([1], .finished [2, 0]), ([2], .finished [1, 0])] :=
   ⟨[.caller 0, .caller 1, .caller 1, .caller 0, .server, .server, .caller 0, .caller 1], by decide⟩
 
+/-! ### the client: kept and single-use connections, failures, redial -/
+
+def KPc.holding : KPc → Prop
+  | .locked _ => True
+  | .dialing _ => True
+  | .ready _ _ => True
+  | .written _ _ => True
+  | _ => False
+
+def KPc.lockRef : KPc → Option Nat
+  | .ref l => some l
+  | .locked l => some l
+  | .dialing l => some l
+  | .ready l _ => some l
+  | .written l _ => some l
+  | _ => none
+
+/-- every connection other than `c` carries nothing -/
+def QuietBut (conns : List KConn) (c : Option Nat) : Prop :=
+  ∀ (j : Nat) k, conns[j]? = some k → some j ≠ c → k.up = [] ∧ k.down = []
+
+/-- the connection in the client's map exists and can carry a request -/
+def CurAlive (y : KCl) : Prop :=
+  ∀ c, y.cur = some c → ∃ k, y.conns[c]? = some k ∧ k.dead = false ∧ k.closed = false
+
+/-- who is between `Lock` and `Unlock`, and what the connections carry -/
+def KHolder (respond : Bytes → Option Bytes) (y : KCl) : Prop :=
+  ∃ h : Option Nat,
+    (∀ (j : Nat) q pc, y.callers[j]? = some (q, pc) → pc.holding → h = some j) ∧
+    match h with
+    | none => (y.locks = [] ∨ y.locks = [false]) ∧ QuietBut y.conns none ∧ CurAlive y
+    | some i => y.locks = [true] ∧ ∃ q,
+        ((y.callers[i]? = some (q, .locked 0) ∨ y.callers[i]? = some (q, .dialing 0)) ∧
+          QuietBut y.conns none ∧ CurAlive y) ∨
+        (∃ c, y.callers[i]? = some (q, .ready 0 c) ∧ y.cur = some c ∧ QuietBut y.conns none ∧ CurAlive y) ∨
+        (∃ c k, y.callers[i]? = some (q, .written 0 c) ∧ y.cur = some c ∧ QuietBut y.conns (some c) ∧
+          y.conns[c]? = some k ∧ k.closed = false ∧
+          ((k.up = [q] ∧ k.down = [] ∧ k.dead = false) ∨
+           (k.up = [] ∧ k.down = [respond q] ∧ k.dead = (respond q).isNone)))
+
+/-- invariant of `Client.Send` as it is: finished callers hold what the server owes to their own
+request; one lock object per destination; at most one caller between `Lock` and `Unlock`, and only
+its connection carries anything: its request, or the answer to it -/
+structure KInv (respond : Bytes → Option Bytes) (y : KCl) : Prop where
+  fin : ∀ (i : Nat) q res, y.callers[i]? = some (q, .finished res) → res = respond q
+  lockObj : (y.curLock = none ∧ y.locks = []) ∨ (y.curLock = some 0 ∧ ∃ b, y.locks = [b])
+  refs : ∀ (i : Nat) q pc l, y.callers[i]? = some (q, pc) → pc.lockRef = some l → l = 0 ∧ y.curLock = some 0
+  holder : KHolder respond y
+
+theorem curAlive_congr {y y' : KCl} (h1 : y'.cur = y.cur) (h2 : y'.conns = y.conns) (h : CurAlive y) : CurAlive y' := by
+  intro c hc; rw [h1] at hc; rw [h2]; exact h c hc
+
+theorem quietBut_set {conns : List KConn} {c : Nat} {k : KConn} (h : QuietBut conns (some c)) :
+    QuietBut (conns.set c k) (some c) := by
+  intro j k' hj hne
+  rcases getElem?_set_eq' _ _ _ _ _ hj with ⟨rfl, _⟩ | ⟨_, he⟩
+  · exact absurd rfl hne
+  · exact h j k' he hne
+
+theorem quietBut_weaken {conns : List KConn} {c : Nat} (h : QuietBut conns none) : QuietBut conns (some c) :=
+  fun j k hj _ => h j k hj (by simp)
+
+theorem quietBut_all {conns : List KConn} {c : Nat} {k : KConn} (h : QuietBut conns (some c)) (hk : conns[c]? = some k)
+    (hu : k.up = []) (hd : k.down = []) : QuietBut conns none := by
+  intro j k' hj _
+  by_cases hjc : j = c
+  · subst hjc; rw [hk] at hj; cases hj; exact ⟨hu, hd⟩
+  · exact h j k' hj (by simpa using hjc)
+
+theorem closeAt_get {conns : List KConn} {c j : Nat} {k : KConn} (h : (closeAt conns c)[j]? = some k) :
+    ∃ k0, conns[j]? = some k0 ∧ k.up = k0.up ∧ k.down = k0.down := by
+  unfold closeAt at h
+  split at h
+  · rename_i k1 hk1
+    rcases getElem?_set_eq' _ _ _ _ _ h with ⟨rfl, he⟩ | ⟨_, he⟩
+    · subst he; exact ⟨k1, hk1, rfl, rfl⟩
+    · exact ⟨k, he, rfl, rfl⟩
+  · exact ⟨k, h, rfl, rfl⟩
+
+theorem quietBut_closeAt {conns : List KConn} {c : Nat} (h : QuietBut conns none) : QuietBut (closeAt conns c) none := by
+  intro j k hj hne
+  obtain ⟨k0, hk0, hu, hd⟩ := closeAt_get hj
+  rw [hu, hd]; exact h j k0 hk0 hne
+
+/-- what the deferred part of `Send` does in the code as it is -/
+theorem finish_fixed (y : KCl) (i : Nat) (q : Bytes) (l : Nat) (res : Option Bytes) :
+    let y' := KCl.finish .fixed y i q l res
+    y'.callers = y.callers.set i (q, .finished res) ∧ y'.locks = y.locks.set l false ∧ y'.curLock = y.curLock ∧
+    y'.keep = y.keep ∧
+    ((res.isSome = true ∧ y'.cur = y.cur ∧ y'.conns = y.conns) ∨
+     (y'.cur = none ∧ ((∃ c, y.cur = some c ∧ y'.conns = closeAt y.conns c) ∨ (y.cur = none ∧ y'.conns = y.conns)))) := by
+  cases res with
+  | none =>
+    cases hc : y.cur with
+    | none => cases hk : y.keep <;> simp [KCl.finish, KVariant.fixed, hc, hk]
+    | some c => cases hk : y.keep <;> simp [KCl.finish, KVariant.fixed, hc, hk]
+  | some r =>
+    cases hc : y.cur with
+    | none => cases hk : y.keep <;> simp [KCl.finish, KVariant.fixed, hc, hk]
+    | some c => cases hk : y.keep <;> simp [KCl.finish, KVariant.fixed, hc, hk]
+
+
+theorem fin_set {respond : Bytes → Option Bytes} {cs : List (Bytes × KPc)} {i : Nat} {q : Bytes} {pc : KPc}
+    (hfin : ∀ (j : Nat) q res, cs[j]? = some (q, .finished res) → res = respond q)
+    (hpc : ∀ res, pc = .finished res → res = respond q) :
+    ∀ (j : Nat) q' res, (cs.set i (q, pc))[j]? = some (q', .finished res) → res = respond q' := by
+  intro j q' res hj
+  rcases getElem?_set_eq' _ _ _ _ _ hj with ⟨_, he⟩ | ⟨_, he⟩
+  · simp only [Prod.mk.injEq] at he
+    obtain ⟨rfl, he⟩ := he
+    exact hpc res he.symm
+  · exact hfin j q' res he
+
+theorem refs_set {cs : List (Bytes × KPc)} {i : Nat} {q : Bytes} {pc : KPc} {cl cl' : Option Nat}
+    (hrefs : ∀ (j : Nat) q pc l, cs[j]? = some (q, pc) → pc.lockRef = some l → l = 0 ∧ cl = some 0)
+    (hcl : cl = some 0 → cl' = some 0)
+    (hpc : ∀ l, pc.lockRef = some l → l = 0 ∧ cl' = some 0) :
+    ∀ (j : Nat) q' pc' l, (cs.set i (q, pc))[j]? = some (q', pc') → pc'.lockRef = some l → l = 0 ∧ cl' = some 0 := by
+  intro j q' pc' l hj hl
+  rcases getElem?_set_eq' _ _ _ _ _ hj with ⟨_, he⟩ | ⟨_, he⟩
+  · simp only [Prod.mk.injEq] at he
+    obtain ⟨_, rfl⟩ := he
+    exact hpc l hl
+  · have := hrefs j q' pc' l he hl
+    exact ⟨this.1, hcl this.2⟩
+
+/-- caller `i` becomes (or stays) the one between `Lock` and `Unlock` -/
+theorem hone_set_holding {cs : List (Bytes × KPc)} {i : Nat} {q : Bytes} {pc : KPc} {h : Option Nat}
+    (hone : ∀ (j : Nat) q pc, cs[j]? = some (q, pc) → pc.holding → h = some j) (hh : h = none ∨ h = some i) :
+    ∀ (j : Nat) q' pc', (cs.set i (q, pc))[j]? = some (q', pc') → pc'.holding → some i = some j := by
+  intro j q' pc' hj hp
+  rcases getElem?_set_eq' _ _ _ _ _ hj with ⟨rfl, _⟩ | ⟨_, he⟩
+  · rfl
+  · have := hone j q' pc' he hp
+    rcases hh with hh | hh
+    · rw [hh] at this; cases this
+    · rw [hh] at this; exact this
+
+/-- caller `i` is not (any more) between `Lock` and `Unlock` -/
+theorem hone_set_idle {cs : List (Bytes × KPc)} {i : Nat} {q : Bytes} {pc : KPc} {h h' : Option Nat}
+    (hone : ∀ (j : Nat) q pc, cs[j]? = some (q, pc) → pc.holding → h = some j) (hnp : ¬ pc.holding)
+    (hh : h = h' ∨ h = some i) :
+    ∀ (j : Nat) q' pc', (cs.set i (q, pc))[j]? = some (q', pc') → pc'.holding → h' = some j := by
+  intro j q' pc' hj hp
+  rcases getElem?_set_eq' _ _ _ _ _ hj with ⟨_, he⟩ | ⟨hne, he⟩
+  · simp only [Prod.mk.injEq] at he
+    obtain ⟨_, rfl⟩ := he
+    exact absurd hp hnp
+  · have := hone j q' pc' he hp
+    rcases hh with hh | hh
+    · rw [← hh]; exact this
+    · rw [hh] at this; simp only [Option.some.injEq] at this; exact absurd this hne
+
+theorem get_set_other {α : Type} {cs : List α} {i h : Nat} {a b x : α} (hc : cs[i]? = some a) (hh : cs[h]? = some b)
+    (hab : a ≠ b) : (cs.set i x)[h]? = some b := by
+  have : i ≠ h := by
+    intro e; subst e; rw [hc] at hh; cases hh; exact hab rfl
+  rw [List.getElem?_set_ne this]; exact hh
+
+theorem get_set_self' {α : Type} {cs : List α} {i : Nat} {a x : α} (hc : cs[i]? = some a) : (cs.set i x)[i]? = some x := by
+  have hlt : i < cs.length := (List.getElem?_eq_some_iff.mp hc).1
+  simp [List.getElem?_set_self hlt]
+
+/-- a caller that holds no lock moves (start → ref, or an attempt): the one between `Lock` and
+`Unlock`, if any, and the connections are as before -/
+theorem holder_other {respond : Bytes → Option Bytes} {y y' : KCl} {i : Nat} {q : Bytes} {pc0 pc : KPc}
+    (hc : y.callers[i]? = some (q, pc0)) (hn0 : ¬ pc0.holding) (hnp : ¬ pc.holding)
+    (hcs : y'.callers = y.callers.set i (q, pc)) (hcn : y'.conns = y.conns) (hcu : y'.cur = y.cur)
+    (hl : y'.locks = y.locks ∨ (y.locks = [] ∧ y'.locks = [false]))
+    (hi : KHolder respond y) : KHolder respond y' := by
+  obtain ⟨h, hone, hm⟩ := hi
+  have ha' : CurAlive y → CurAlive y' := curAlive_congr hcu hcn
+  refine ⟨h, ?_, ?_⟩
+  · rw [hcs]; exact hone_set_idle hone hnp (Or.inl rfl)
+  cases h with
+  | none =>
+    obtain ⟨hlk, hq, ha⟩ := hm
+    refine ⟨?_, by rw [hcn]; exact hq, ha' ha⟩
+    rcases hl with hl | ⟨_, hl⟩
+    · rw [hl]; exact hlk
+    · exact Or.inr hl
+  | some i' =>
+    obtain ⟨hlk, q', hm⟩ := hm
+    have hl' : y'.locks = [true] := by
+      rcases hl with hl | ⟨he, _⟩
+      · rw [hl]; exact hlk
+      · rw [he] at hlk; cases hlk
+    refine ⟨hl', q', ?_⟩
+    have key : ∀ pc1 : KPc, pc1.holding → y.callers[i']? = some (q', pc1) →
+        y'.callers[i']? = some (q', pc1) := by
+      intro pc1 hp1 h1
+      rw [hcs]
+      refine get_set_other hc h1 ?_
+      intro e
+      simp only [Prod.mk.injEq] at e
+      rw [e.2] at hn0; exact hn0 hp1
+    rw [hcn, hcu]
+    rcases hm with ⟨hor, hq, ha⟩ | ⟨c, h1, hcur, hq, ha⟩ | ⟨c, k, h1, hcur, hq, hk, hcl, hor⟩
+    · left
+      refine ⟨?_, hq, ha' ha⟩
+      rcases hor with h1 | h1
+      · exact Or.inl (key _ trivial h1)
+      · exact Or.inr (key _ trivial h1)
+    · right; left
+      exact ⟨c, key _ trivial h1, hcur, hq, ha' ha⟩
+    · right; right
+      exact ⟨c, k, key _ trivial h1, hcur, hq, hk, hcl, hor⟩
+
+/-- the caller between `Lock` and `Unlock` returns -/
+theorem finish_inv {respond : Bytes → Option Bytes} {y0 : KCl} {i : Nat} {q : Bytes} {pc0 : KPc} (res : Option Bytes)
+    (hres : res = respond q) (_hc : y0.callers[i]? = some (q, pc0))
+    (hfin : ∀ (j : Nat) q res, y0.callers[j]? = some (q, .finished res) → res = respond q)
+    (hlo : y0.curLock = some 0) (hlk : y0.locks = [true])
+    (hrefs : ∀ (j : Nat) q pc l, y0.callers[j]? = some (q, pc) → pc.lockRef = some l → l = 0 ∧ y0.curLock = some 0)
+    (hone : ∀ (j : Nat) q pc, y0.callers[j]? = some (q, pc) → pc.holding → some i = some j)
+    (hq : QuietBut y0.conns none) (ha : res.isSome = true → CurAlive y0) :
+    KInv respond (KCl.finish .fixed y0 i q 0 res) := by
+  obtain ⟨h1, h2, h3, _, h5⟩ := finish_fixed y0 i q 0 res
+  refine ⟨?_, ?_, ?_, ⟨none, ?_, ?_, ?_, ?_⟩⟩
+  · rw [h1]; exact fin_set hfin (fun r hr => by cases hr; exact hres)
+  · right; rw [h3, h2, hlk]; exact ⟨hlo, false, rfl⟩
+  · rw [h1, h3]; exact refs_set hrefs (fun h => h) (fun l hl => by simp [KPc.lockRef] at hl)
+  · rw [h1]; exact hone_set_idle hone (by simp [KPc.holding]) (Or.inr rfl)
+  · right; rw [h2, hlk]; rfl
+  · rcases h5 with ⟨_, _, hcn⟩ | ⟨_, ⟨c, _, hcn⟩ | ⟨_, hcn⟩⟩
+    · rw [hcn]; exact hq
+    · rw [hcn]; exact quietBut_closeAt hq
+    · rw [hcn]; exact hq
+  · rcases h5 with ⟨hs, hcu, hcn⟩ | ⟨hcu, _⟩
+    · exact curAlive_congr hcu hcn (ha hs)
+    · intro c hc'; rw [hcu] at hc'; cases hc'
+
+
+theorem kStep_inv (respond : Bytes → Option Bytes) (y y' : KCl) (a : KAct)
+    (h : kStep .fixed respond y a = some y') (hi : KInv respond y) : KInv respond y' := by
+  obtain ⟨hfin, hlo, hrefs, hh, hone, hm⟩ := hi
+  cases a with
+  | server c =>
+    simp only [kStep] at h
+    split at h
+    · simp at h
+    · rename_i k hk
+      split at h
+      · simp at h
+      · rename_i hdc
+        split at h
+        · simp at h
+        · rename_i q0 rest hup
+          simp only [Option.some.injEq] at h
+          subst h
+          refine ⟨hfin, hlo, hrefs, hh, hone, ?_⟩
+          cases hh with
+          | none =>
+            have := (hm.2.1 c k hk (by simp)).1
+            rw [hup] at this; cases this
+          | some i =>
+            obtain ⟨hlk, q, hm⟩ := hm
+            refine ⟨hlk, q, ?_⟩
+            rcases hm with ⟨_, hq, _⟩ | ⟨_, _, _, hq, _⟩ | ⟨c', k1, h1, hcur, hq, hk1, hcl, hor⟩
+            · have := (hq c k hk (by simp)).1
+              rw [hup] at this; cases this
+            · have := (hq c k hk (by simp)).1
+              rw [hup] at this; cases this
+            · right; right
+              by_cases hcc : c = c'
+              · subst hcc
+                rw [hk] at hk1; cases hk1
+                rcases hor with ⟨hu, hd, hdd⟩ | ⟨hu, _, _⟩
+                · rw [hup] at hu
+                  simp only [List.cons.injEq] at hu
+                  obtain ⟨rfl, rfl⟩ := hu
+                  refine ⟨c, _, h1, hcur, quietBut_set hq, get_set_self' hk, hcl, Or.inr ⟨rfl, by simp [hd], rfl⟩⟩
+                · rw [hup] at hu; cases hu
+              · have := (hq c k hk (by simpa using hcc)).1
+                rw [hup] at this; cases this
+  | caller i =>
+    simp only [kStep] at h
+    split at h
+    · simp at h
+    · -- start
+      rename_i q hc
+      split at h
+      · rename_i l hcl
+        simp only [Option.some.injEq] at h
+        subst h
+        have hl0 : l = 0 ∧ y.curLock = some 0 := by
+          rcases hlo with ⟨hn, _⟩ | ⟨hs, _⟩
+          · rw [hn] at hcl; cases hcl
+          · rw [hs] at hcl; cases hcl; exact ⟨rfl, hs⟩
+        refine ⟨fin_set hfin (fun r hr => by cases hr), hlo,
+          refs_set hrefs (fun h => h) (fun l' hl' => by simp only [KPc.lockRef, Option.some.injEq] at hl'; subst hl'; exact hl0), ?_⟩
+        exact holder_other hc (by simp [KPc.holding]) (by simp [KPc.holding]) rfl rfl rfl (Or.inl rfl) ⟨hh, hone, hm⟩
+      · rename_i hcl
+        simp only [Option.some.injEq] at h
+        subst h
+        have hle : y.locks = [] := by
+          rcases hlo with ⟨_, he⟩ | ⟨hs, _⟩
+          · exact he
+          · rw [hs] at hcl; cases hcl
+        refine ⟨fin_set hfin (fun r hr => by cases hr), Or.inr ⟨by simp [hle], false, by simp [hle]⟩,
+          refs_set (cl := y.curLock) hrefs (fun h => by rw [hcl] at h; cases h)
+            (fun l' hl' => by simp only [KPc.lockRef, Option.some.injEq] at hl'; subst hl'; simp [hle]), ?_⟩
+        exact holder_other hc (by simp [KPc.holding]) (by simp [KPc.holding]) rfl rfl rfl (Or.inr ⟨hle, by simp [hle]⟩)
+          ⟨hh, hone, hm⟩
+    · -- ref: take the lock
+      rename_i q l hc
+      split at h
+      · rename_i hfree
+        simp only [Option.some.injEq] at h
+        subst h
+        obtain ⟨rfl, hcl⟩ := hrefs i q _ l hc rfl
+        have hlk : y.locks = [false] := by
+          rcases hlo with ⟨hn, _⟩ | ⟨_, b, hb⟩
+          · rw [hn] at hcl; cases hcl
+          · rw [hb] at hfree; simp at hfree; rw [hb, hfree]
+        cases hh with
+        | some k => rw [hm.1] at hlk; cases hlk
+        | none =>
+          obtain ⟨_, hq, ha⟩ := hm
+          refine ⟨fin_set hfin (fun r hr => by cases hr), Or.inr ⟨hcl, true, by simp [hlk]⟩,
+            refs_set hrefs (fun h => h) (fun l' hl' => by simp only [KPc.lockRef, Option.some.injEq] at hl'; subst hl'; exact ⟨rfl, hcl⟩),
+            some i, hone_set_holding hone (Or.inl rfl), by simp [hlk], q, Or.inl ⟨Or.inl (get_set_self' hc), hq, ha⟩⟩
+      · simp at h
+    · -- locked: look the connection up
+      rename_i q l hc
+      obtain ⟨rfl, hcl⟩ := hrefs i q _ l hc rfl
+      have hhi := hone i q _ hc trivial
+      subst hhi
+      obtain ⟨hlk, q', hm⟩ := hm
+      have hq' : QuietBut y.conns none ∧ CurAlive y := by
+        rcases hm with ⟨_, hq, ha⟩ | ⟨c, h1, _⟩ | ⟨c, k, h1, _⟩
+        · exact ⟨hq, ha⟩
+        · rw [hc] at h1; cases h1
+        · rw [hc] at h1; cases h1
+      split at h
+      · rename_i c hcur
+        simp only [Option.some.injEq] at h
+        subst h
+        exact ⟨fin_set hfin (fun r hr => by cases hr), hlo,
+          refs_set hrefs (fun h => h) (fun l' hl' => by simp only [KPc.lockRef, Option.some.injEq] at hl'; subst hl'; exact ⟨rfl, hcl⟩),
+          some i, hone_set_holding hone (Or.inr rfl), hlk, q, Or.inr (Or.inl ⟨c, get_set_self' hc, hcur, hq'.1, hq'.2⟩)⟩
+      · simp only [Option.some.injEq] at h
+        subst h
+        exact ⟨fin_set hfin (fun r hr => by cases hr), hlo,
+          refs_set hrefs (fun h => h) (fun l' hl' => by simp only [KPc.lockRef, Option.some.injEq] at hl'; subst hl'; exact ⟨rfl, hcl⟩),
+          some i, hone_set_holding hone (Or.inr rfl), hlk, q, Or.inl ⟨Or.inr (get_set_self' hc), hq'.1, hq'.2⟩⟩
+    · -- dialing: a new connection
+      rename_i q l hc
+      obtain ⟨rfl, hcl⟩ := hrefs i q _ l hc rfl
+      have hhi := hone i q _ hc trivial
+      subst hhi
+      obtain ⟨hlk, q', hm⟩ := hm
+      have hq' : QuietBut y.conns none := by
+        rcases hm with ⟨_, hq, _⟩ | ⟨c, h1, _⟩ | ⟨c, k, h1, _⟩
+        · exact hq
+        · rw [hc] at h1; cases h1
+        · rw [hc] at h1; cases h1
+      simp only [Option.some.injEq] at h
+      subst h
+      refine ⟨fin_set hfin (fun r hr => by cases hr), hlo,
+        refs_set hrefs (fun h => h) (fun l' hl' => by simp only [KPc.lockRef, Option.some.injEq] at hl'; subst hl'; exact ⟨rfl, hcl⟩),
+        some i, hone_set_holding hone (Or.inr rfl), hlk, q, Or.inr (Or.inl ⟨y.conns.length, get_set_self' hc, rfl, ?_, ?_⟩)⟩
+      · intro j k hj hne
+        by_cases hjl : j < y.conns.length
+        · rw [List.getElem?_append_left hjl] at hj; exact hq' j k hj hne
+        · rw [List.getElem?_append_right (by omega)] at hj
+          have : k = {} := by
+            cases hjj : j - y.conns.length with
+            | zero => rw [hjj] at hj; simpa using hj.symm
+            | succ n => rw [hjj] at hj; simp at hj
+          subst this; exact ⟨rfl, rfl⟩
+      · intro c hc'
+        simp only [Option.some.injEq] at hc'
+        subst hc'
+        exact ⟨{}, by simp, rfl, rfl⟩
+    · -- ready: write the request
+      rename_i q l c hc
+      obtain ⟨rfl, hcl⟩ := hrefs i q _ l hc rfl
+      have hhi := hone i q _ hc trivial
+      subst hhi
+      obtain ⟨hlk, q', hm⟩ := hm
+      have hq' : y.cur = some c ∧ QuietBut y.conns none ∧ CurAlive y := by
+        rcases hm with ⟨h1 | h1, _⟩ | ⟨c', h1, hcur, hq, ha⟩ | ⟨c', k, h1, _⟩
+        · rw [hc] at h1; cases h1
+        · rw [hc] at h1; cases h1
+        · rw [hc] at h1; cases h1; exact ⟨hcur, hq, ha⟩
+        · rw [hc] at h1; cases h1
+      obtain ⟨hcur, hq, ha⟩ := hq'
+      obtain ⟨k0, hk0, hd0, hc0⟩ := ha c hcur
+      split at h
+      · rename_i hn; rw [hk0] at hn; cases hn
+      · rename_i k hk
+        rw [hk0] at hk; cases hk
+        simp only [hc0, Bool.false_eq_true, if_false, Option.some.injEq] at h
+        subst h
+        have hu := (hq c k0 hk0 (by simp)).1
+        have hdn := (hq c k0 hk0 (by simp)).2
+        exact ⟨fin_set hfin (fun r hr => by cases hr), hlo,
+          refs_set hrefs (fun h => h) (fun l' hl' => by simp only [KPc.lockRef, Option.some.injEq] at hl'; subst hl'; exact ⟨rfl, hcl⟩),
+          some i, hone_set_holding hone (Or.inr rfl), hlk, q,
+          Or.inr (Or.inr ⟨c, _, get_set_self' hc, hcur, quietBut_set (quietBut_weaken hq), get_set_self' hk0, rfl,
+            Or.inl ⟨by simp [hu], hdn, hd0⟩⟩)⟩
+    · -- written: read the answer, leave
+      rename_i q l c hc
+      obtain ⟨rfl, hcl⟩ := hrefs i q _ l hc rfl
+      have hhi := hone i q _ hc trivial
+      subst hhi
+      obtain ⟨hlk, q', hm⟩ := hm
+      have hq' : ∃ k, y.cur = some c ∧ QuietBut y.conns (some c) ∧ y.conns[c]? = some k ∧ k.closed = false ∧
+          ((k.up = [q] ∧ k.down = [] ∧ k.dead = false) ∨
+           (k.up = [] ∧ k.down = [respond q] ∧ k.dead = (respond q).isNone)) := by
+        rcases hm with ⟨h1 | h1, _⟩ | ⟨c', h1, _⟩ | ⟨c', k, h1, hcur, hq, hk, hcl', hor⟩
+        · rw [hc] at h1; cases h1
+        · rw [hc] at h1; cases h1
+        · rw [hc] at h1; cases h1
+        · rw [hc] at h1; cases h1; exact ⟨k, hcur, hq, hk, hcl', hor⟩
+      obtain ⟨k0, hcur, hq, hk0, hc0, hor⟩ := hq'
+      split at h
+      · rename_i hn; rw [hk0] at hn; cases hn
+      · rename_i k hk
+        rw [hk0] at hk; cases hk
+        simp only [hc0, Bool.false_eq_true, if_false] at h
+        rcases hor with ⟨_, hd, hdd⟩ | ⟨hu, hd, hdd⟩
+        · simp [hd, hdd] at h
+        · simp only [hd, Option.some.injEq] at h
+          subst h
+          have hone' : ∀ (j : Nat) q pc, y.callers[j]? = some (q, pc) → pc.holding → some i = some j := hone
+          refine finish_inv (respond q) rfl (pc0 := .written 0 c) hc hfin hcl hlk hrefs hone' ?_ ?_
+          · intro j k hj _
+            rcases getElem?_set_eq' _ _ _ _ _ hj with ⟨_, he⟩ | ⟨hne, he⟩
+            · subst he; exact ⟨hu, rfl⟩
+            · exact hq j k he (by simpa using fun e => hne e.symm)
+          · intro hs c' hc'
+            simp only at hc'
+            rw [hcur] at hc'; cases hc'
+            refine ⟨_, get_set_self' hk0, ?_, rfl⟩
+            simp only [hdd]
+            cases hr : respond q with
+            | none => rw [hr] at hs; cases hs
+            | some r => rfl
+    · simp at h
+
+
+theorem map_fst_set {cs : List (Bytes × KPc)} {i : Nat} {q : Bytes} {pc pc' : KPc} (hc : cs[i]? = some (q, pc)) :
+    (cs.set i (q, pc')).map (·.1) = cs.map (·.1) := by
+  apply List.ext_getElem?
+  intro j
+  by_cases hij : i = j
+  · subst hij
+    have hlt : i < cs.length := (List.getElem?_eq_some_iff.mp hc).1
+    simp only [List.map_set, List.getElem?_map, hc, Option.map_some]
+    rw [List.getElem?_set_self (by simpa using hlt)]
+  · simp [List.getElem?_set_ne hij]
+
+theorem kStep_requests (respond : Bytes → Option Bytes) (y y' : KCl) (a : KAct)
+    (h : kStep .fixed respond y a = some y') : y'.callers.map (·.1) = y.callers.map (·.1) := by
+  cases a with
+  | server c =>
+    simp only [kStep] at h
+    split at h
+    · simp at h
+    · split at h
+      · simp at h
+      · split at h
+        · simp at h
+        · simp only [Option.some.injEq] at h; subst h; rfl
+  | caller i =>
+    simp only [kStep] at h
+    split at h
+    · simp at h
+    · rename_i q hc
+      split at h <;> (simp only [Option.some.injEq] at h; subst h; exact map_fst_set hc)
+    · rename_i q l hc
+      split at h
+      · simp only [Option.some.injEq] at h; subst h; exact map_fst_set hc
+      · simp at h
+    · rename_i q l hc
+      split at h <;> (simp only [Option.some.injEq] at h; subst h; exact map_fst_set hc)
+    · rename_i q l hc
+      simp only [Option.some.injEq] at h; subst h; exact map_fst_set hc
+    · rename_i q l c hc
+      split at h
+      · simp at h
+      · split at h
+        · simp only [Option.some.injEq] at h; subst h
+          rw [(finish_fixed y i q l none).1]; exact map_fst_set hc
+        · simp only [Option.some.injEq] at h; subst h; exact map_fst_set hc
+    · rename_i q l c hc
+      split at h
+      · simp at h
+      · split at h
+        · simp only [Option.some.injEq] at h; subst h
+          rw [(finish_fixed y i q l none).1]; exact map_fst_set hc
+        · split at h
+          · simp only [Option.some.injEq] at h; subst h
+            rw [(finish_fixed _ i q l _).1]; exact map_fst_set hc
+          · split at h
+            · simp only [Option.some.injEq] at h; subst h
+              rw [(finish_fixed y i q l none).1]; exact map_fst_set hc
+            · simp at h
+    · simp at h
+
+theorem kInv_fresh (respond : Bytes → Option Bytes) (keep : Bool) (reqs : List Bytes) :
+    KInv respond { keep := keep, callers := reqs.map (fun q => (q, KPc.start)) } := by
+  have hst : ∀ (i : Nat) q pc, (reqs.map (fun q => (q, KPc.start)))[i]? = some (q, pc) → pc = .start := by
+    intro i q pc hc
+    simp only [List.getElem?_map] at hc
+    cases hr : reqs[i]? with
+    | none => rw [hr] at hc; cases hc
+    | some r => rw [hr] at hc; simp only [Option.map_some, Option.some.injEq, Prod.mk.injEq] at hc; exact hc.2.symm
+  refine ⟨?_, Or.inl ⟨rfl, rfl⟩, ?_, none, ?_, Or.inl rfl, ?_, ?_⟩
+  · intro i q res hc; cases hst i q _ hc
+  · intro i q pc l hc hl; have := hst i q pc hc; subst this; simp [KPc.lockRef] at hl
+  · intro j q pc hc hp; have := hst j q pc hc; subst this; simp [KPc.holding] at hp
+  · intro j k hj; simp at hj
+  · intro c hc; simp at hc
+
+theorem kRun_inv (respond : Bytes → Option Bytes) (sched : List KAct) (y : KCl) (hi : KInv respond y) :
+    KInv respond (kRun .fixed respond y sched) ∧
+      (kRun .fixed respond y sched).callers.map (·.1) = y.callers.map (·.1) := by
+  induction sched generalizing y with
+  | nil => exact ⟨hi, rfl⟩
+  | cons a as ih =>
+    simp only [kRun]
+    split
+    · rename_i y₂ hs
+      have := ih y₂ (kStep_inv respond y y₂ a hs hi)
+      exact ⟨this.1, this.2.trans (kStep_requests respond y y₂ a hs)⟩
+    · exact ih y hi
+
+/-- **the reply handed back by `Send` is the one owed to the caller's own request — with kept and
+with single-use connections, through failures and redials**: any number of goroutines calling
+`Send` on one `Client` for one destination, any requests (answered, or refused by the server, which
+then closes the connection), every interleaving of the callers with each other and with the
+server's connection goroutines:
+1. a caller that returns holds exactly what the server owes to *its own* request — the reply, or an
+   error if and only if the server refused it (so: no reply of another request, and no error
+   inherited from another request's failure);
+2. the requests themselves are untouched;
+3. **one request in flight per connection**: every connection ever dialed carries at most one
+   unanswered request or unread answer, and only the connection currently in the client's map
+   carries anything;
+4. whenever no caller is between `Lock` and `Unlock`, the connection in the map (if any) is one the
+   server still serves: the next request is not lost to an earlier failure. -/
+theorem c14_client_keep_fail_redial (respond : Bytes → Option Bytes) (keep : Bool) (reqs : List Bytes)
+    (sched : List KAct) :
+    let y := kRun .fixed respond { keep := keep, callers := reqs.map (fun q => (q, .start)) } sched
+    (∀ (i : Nat) q res, y.callers[i]? = some (q, .finished res) → res = respond q) ∧
+    y.callers.map (·.1) = reqs ∧
+    (∀ (c : Nat) k, y.conns[c]? = some k →
+      k.up.length + k.down.length ≤ 1 ∧ (k.up ≠ [] ∨ k.down ≠ [] → y.cur = some c)) ∧
+    ((∀ (j : Nat) q pc, y.callers[j]? = some (q, pc) → ¬ pc.holding) → CurAlive y) := by
+  intro y
+  obtain ⟨hI, hreq⟩ := kRun_inv respond sched _ (kInv_fresh respond keep reqs)
+  change KInv respond y at hI
+  refine ⟨hI.fin, ?_, ?_, ?_⟩
+  · rw [hreq]; simp [Function.comp_def]
+  · intro c k hk
+    obtain ⟨h, _, hm⟩ := hI.holder
+    have quiet : QuietBut y.conns none → k.up.length + k.down.length ≤ 1 ∧ (k.up ≠ [] ∨ k.down ≠ [] → y.cur = some c) := by
+      intro hq
+      obtain ⟨hu, hd⟩ := hq c k hk (by simp)
+      simp [hu, hd]
+    cases h with
+    | none => exact quiet hm.2.1
+    | some i =>
+      obtain ⟨_, q, hm⟩ := hm
+      rcases hm with ⟨_, hq, _⟩ | ⟨_, _, _, hq, _⟩ | ⟨c', k', _, hcur, hq, hk', _, hor⟩
+      · exact quiet hq
+      · exact quiet hq
+      · by_cases hcc : c = c'
+        · subst hcc
+          rw [hk] at hk'; cases hk'
+          refine ⟨?_, fun _ => hcur⟩
+          rcases hor with ⟨hu, hd, _⟩ | ⟨hu, hd, _⟩ <;> simp [hu, hd]
+        · obtain ⟨hu, hd⟩ := hq c k hk (by simpa using hcc)
+          simp [hu, hd]
+  · intro hno
+    obtain ⟨h, hone, hm⟩ := hI.holder
+    cases h with
+    | none => exact hm.2.2
+    | some i =>
+      obtain ⟨_, q, hm⟩ := hm
+      rcases hm with ⟨h1 | h1, _⟩ | ⟨_, h1, _⟩ | ⟨_, _, h1, _⟩ <;> exact absurd trivial (hno i q _ h1)
+
+/-- a server that refuses the request `[0]` and answers every other request `q` with `q ++ [9]` -/
+def respDemo (q : Bytes) : Option Bytes := if q = [0] then none else some (q ++ [9])
+
+/-- a kept connection that is not forgotten after a failed request (the code before 5b2df0e): the
+next, valid request of the same client fails without reaching a handler; with the code as it is it is
+served over a freshly dialed connection -/
+theorem c14_client_kept_dead_connection_fails_next :
+    (kRun ⟨false, true⟩ respDemo { keep := true, callers := [([0], .start), ([1], .start)] }
+      [.caller 0, .caller 0, .caller 0, .caller 0, .caller 0, .server 0, .caller 0,
+       .caller 1, .caller 1, .caller 1, .caller 1, .server 0, .caller 1]).callers
+      = [([0], .finished none), ([1], .finished none)] ∧
+    (kRun .fixed respDemo { keep := true, callers := [([0], .start), ([1], .start)] }
+      [.caller 0, .caller 0, .caller 0, .caller 0, .caller 0, .server 0, .caller 0,
+       .caller 1, .caller 1, .caller 1, .caller 1, .caller 1, .server 1, .caller 1]).callers
+      = [([0], .finished none), ([1], .finished (some [1, 9]))] := by decide
+
+/-- the lock object deleted together with the connection (single-use client, three callers): the
+second caller still holds the old lock object, the third creates a new one and dials; both then use the
+new connection at once and the second is handed the reply to the third's request.  With the code as it
+is the second caller is still waiting for its turn on the same schedule. -/
+theorem c14_client_lock_deleted_with_connection_swaps :
+    let sched : List KAct := [.caller 0, .caller 0, .caller 1, .caller 0, .caller 0, .caller 0, .server 0, .caller 0,
+       .caller 2, .caller 2, .caller 2, .caller 2, .caller 2, .caller 1, .caller 1, .caller 1, .server 1, .server 1,
+       .caller 1]
+    ((kRun ⟨true, false⟩ respDemo { keep := false, callers := [([1], .start), ([2], .start), ([3], .start)] } sched).callers[1]?
+      = some ([2], .finished (some [3, 9]))) ∧
+    ((kRun .fixed respDemo { keep := false, callers := [([1], .start), ([2], .start), ([3], .start)] } sched).callers[1]?
+      = some ([2], .ref 0)) := by decide
+
+/-- non-vacuity: a kept client, three callers, the second request is refused: everybody returns, the
+third request travels on a freshly dialed connection -/
+example :
+    let y := kRun .fixed respDemo { keep := true, callers := [([1], .start), ([0], .start), ([2], .start)] }
+      [.caller 0, .caller 1, .caller 2, .caller 0, .caller 0, .caller 0, .caller 0, .server 0, .caller 0,
+       .caller 1, .caller 1, .caller 1, .server 0, .caller 1,
+       .caller 2, .caller 2, .caller 2, .caller 2, .server 1, .caller 2]
+    y.callers = [([1], .finished (some [1, 9])), ([0], .finished none), ([2], .finished (some [2, 9]))] ∧
+    y.conns.length = 2 ∧ y.cur = some 1 := by decide
+
 /-! ### the client: several nodes asked at once -/
 
 /-- invariant of `SendProtobufParallelWithDecoder`: once a winner is announced, `ret` holds the
